@@ -15,6 +15,11 @@ pub enum Kind {
     Texture,
     StorageTexture,
     Sampler,
+    /// `array<atomic<u32>, 4>` in a storage buffer
+    AtomicArray,
+    /// a storage variable whose own type is `atomic<u32>` (the generator refuses it on this tree; a tree that accepts
+    /// it owes it a field, a layout entry and a bind group entry like any other variable)
+    AtomicTop,
 }
 const KINDS: [Kind; 5] = [Kind::Uniform, Kind::Storage, Kind::Texture, Kind::StorageTexture, Kind::Sampler];
 
@@ -27,18 +32,20 @@ impl Kind {
             Kind::Texture => format!("{at} var {name}: texture_2d<f32>;\n"),
             Kind::StorageTexture => format!("{at} var {name}: texture_storage_2d<rgba8unorm, write>;\n"),
             Kind::Sampler => format!("{at} var {name}: sampler;\n"),
+            Kind::AtomicArray => format!("{at} var<storage, read_write> {name}: array<atomic<u32>, 4>;\n"),
+            Kind::AtomicTop => format!("{at} var<storage, read_write> {name}: atomic<u32>;\n"),
         }
     }
     fn field_type(self) -> &'static str {
         match self {
-            Kind::Uniform | Kind::Storage => "wgpu::BufferBinding<'a>",
+            Kind::Uniform | Kind::Storage | Kind::AtomicArray | Kind::AtomicTop => "wgpu::BufferBinding<'a>",
             Kind::Texture | Kind::StorageTexture => "&'awgpu::TextureView",
             Kind::Sampler => "&'awgpu::Sampler",
         }
     }
     fn resource(self) -> &'static str {
         match self {
-            Kind::Uniform | Kind::Storage => "Buffer",
+            Kind::Uniform | Kind::Storage | Kind::AtomicArray | Kind::AtomicTop => "Buffer",
             Kind::Texture | Kind::StorageTexture => "TextureView",
             Kind::Sampler => "Sampler",
         }
@@ -213,7 +220,7 @@ pub fn probe_code(p: &Prog) -> String {
         for v in vars {
             let i = tag % 16;
             match v.kind {
-                Kind::Uniform | Kind::Storage => s.push_str(&format!("        {}: wgpu::BufferBinding {{ buffer: &res.buffers[{i}], offset: {}, size: None }},\n", v.name, 256 * (tag / 16))),
+                Kind::Uniform | Kind::Storage | Kind::AtomicArray | Kind::AtomicTop => s.push_str(&format!("        {}: wgpu::BufferBinding {{ buffer: &res.buffers[{i}], offset: {}, size: None }},\n", v.name, 256 * (tag / 16))),
                 Kind::Texture | Kind::StorageTexture => s.push_str(&format!("        {}: &res.views[{i}],\n", v.name)),
                 Kind::Sampler => s.push_str(&format!("        {}: &res.samplers[{i}],\n", v.name)),
             }
@@ -250,7 +257,7 @@ fn expected_tags(p: &Prog) -> BTreeMap<(u32, u32), (String, String)> {
         for v in vars {
             let i = tag % 16;
             let t = match v.kind {
-                Kind::Uniform | Kind::Storage => ("Buffer".to_string(), format!("{}:{}:None", 100 + i, 256 * (tag / 16))),
+                Kind::Uniform | Kind::Storage | Kind::AtomicArray | Kind::AtomicTop => ("Buffer".to_string(), format!("{}:{}:None", 100 + i, 256 * (tag / 16))),
                 Kind::Texture | Kind::StorageTexture => ("TextureView".to_string(), format!("{}", 200 + i)),
                 Kind::Sampler => ("Sampler".to_string(), format!("{}", 300 + i)),
             };
@@ -455,6 +462,28 @@ pub fn space(thorough: bool) -> Vec<Prog> {
                     out.push(Prog { key: format!("twins|k={k}|per={per}|kinds={kind_off}|odd={odd:?}"), vars, src });
                 }
             }
+        }
+    }
+    // rarely used resource types next to ordinary ones: in the middle of a group, alone in the last group, alone in a
+    // middle group
+    for rare in [Kind::AtomicArray, Kind::AtomicTop] {
+        let layouts: [&[(u32, u32, Option<Kind>)]; 4] = [
+            &[(0, 0, Some(Kind::Uniform)), (0, 1, None), (0, 2, Some(Kind::Texture))],
+            &[(0, 0, Some(Kind::Uniform)), (1, 0, None)],
+            &[(0, 0, Some(Kind::Uniform)), (1, 0, None), (2, 0, Some(Kind::Sampler))],
+            &[(0, 3, None), (0, 1, Some(Kind::Storage))],
+        ];
+        for (li, l) in layouts.iter().enumerate() {
+            let mut vars = vec![];
+            let mut src = String::new();
+            for (i, (g, b, k)) in l.iter().enumerate() {
+                let kind = k.unwrap_or(rare);
+                let name = format!("{}_{}", NAME_POOL[(i * 5 + li) % NAME_POOL.len()], i);
+                src.push_str(&kind.decl(&name, *g, *b));
+                vars.push(Var { name, group: *g, binding: *b, kind });
+            }
+            src.push_str("@compute @workgroup_size(1) fn main() {\n}\n@fragment fn fs_main() {\n}\n");
+            out.push(Prog { key: format!("rare|{rare:?}|layout={li}"), vars, src });
         }
     }
     // up to 8 groups, one variable each, every rotation and the reversed declaration order
